@@ -781,7 +781,7 @@ class Translator:
             self.op_ok[q] = out is None or not out[1]
         # public methods of the component / node objects handed out by the circuit (cct.R1.open_circuit(),
         # cct['2'].rename('7'), ...): they are public operations on the netlist too
-        self.cb_public = [n for n in self.cb_order if not n.startswith('_')]
+        self.cb_public = [n for n in self.cb_order if not n.startswith('_') and n not in NODE_WRITERS]   # Node.remove/append: bookkeeping primitives used by Netlist.remove / the parser
         self.cb_ok = {}
         self.cb_owner = {}
         for n in self.cb_public:
@@ -1307,12 +1307,21 @@ class FuncTranslator:
     def __init__(self, T, fi, receiver='self', track_binding=False, foreign=False):
         self.T, self.fi, self.recv, self.track, self.foreign = T, fi, receiver, track_binding, foreign
         self.path = fi.path
+        # local names bound to the circuit (cct = self.cct) in a call-back method
+        self.aliases = set()
+        if receiver == 'self.cct':
+            for n in ast.walk(fi.node):
+                if isinstance(n, ast.Assign) and len(n.targets) == 1 and isinstance(n.targets[0], ast.Name) \
+                        and isinstance(n.value, ast.Attribute) and n.value.attr == 'cct' and is_self(n.value.value):
+                    self.aliases.add(n.targets[0].id)
         self.cptlike = set()
         self.find_cptlike()
 
     # receiver tests ------------------------------------------------------------------
     def is_recv(self, n):
         if self.recv == 'self.cct':
+            if isinstance(n, ast.Name) and n.id in self.aliases:
+                return True
             return isinstance(n, ast.Attribute) and n.attr == 'cct' and is_self(n.value)
         return isinstance(n, ast.Name) and n.id == self.recv
 
